@@ -1553,7 +1553,17 @@ impl Scenario for Truncate {
             pick_input_mode(&mut rng)
         };
         label.push_str(if im == InputMode::File { " file" } else { " pipe" });
+        // 1 in 6 of the checks: expectations about the whole run (custom checks file) that a truncated run cannot meet -
+        // their messages carry no position and belong to no packet; the run must still end normally
+        let run_expect = !rows_mode && rng.chance(1, 6);
+        if run_expect {
+            parts.extend(s(&["-c", "@CHECKS@"]));
+            label.push_str(" run-expectations");
+        }
         let mut full = specgen::spec(im, &parts, input);
+        if run_expect {
+            full.custom_checks_toml = Some(format!("cdps = {}\ntriggers_pht = {}\n", 1 + rng.below(300), 1 + rng.below(40)));
+        }
         if rng.chance(1, 2) {
             swarm_schedule(&mut full, &mut rng, 300 + st.total_packets() as u64 * 12);
         }
